@@ -16,18 +16,25 @@
 (*   Alias       the worker enqueues its encode buffer itself, not a copy     *)
 (*   CloseWaits  FALSE: as built, shutdown closes udpCh after a 1 s sleep     *)
 (*               while the receive loop may still be blocked sending          *)
+(*   MirrorPutsOwn  on a full mirror queue the worker returns its receive buffer    *)
 (*   RetireDrops a retiring worker (dynamic workers) takes a datagram with it *)
 EXTENDS Integers, Sequences, FiniteSets, TLC
 
 CONSTANTS Workers, Dgrams, Bufs, UdpCap, MqCap, EarlyPut, Alias, CloseWaits,
+          MirrorOn,      \* the mirror of ipfix / sflow: every dequeued datagram is copied into a pool buffer for the mirror workers
+          MirCap,        \* capacity of the mirror queue (1000 in the code)
+          MirrorPutsOwn, \* deviation: when the mirror queue is full the worker returns ITS OWN receive buffer to the pool
           MaxRetire,     \* dynamic workers: how many workers may be told to quit (dynWorkers closes wQuit)
           RetireDrops    \* deviation: a worker that sees its quit signal after taking a datagram leaves with it
 
 Kind(d) == d[1]          \* datagrams are <<kind, n>>, kind \in {"data","tpl","bad"}
 
 VARIABLES pool, content, arriving, recv, udpCh, w, mqCh, udpCount, decCount,
-          stop, closed, sd, published, panicked, quit
-vars == <<pool, content, arriving, recv, udpCh, w, mqCh, udpCount, decCount, stop, closed, sd, published, panicked, quit>>
+          stop, closed, sd, published, panicked, quit,
+          mirCh,      \* the mirror queue: buffers holding copies
+          mirrored    \* per datagram: what the mirror workers sent for it
+mvars == <<mirCh, mirrored>>
+vars == <<pool, content, arriving, recv, udpCh, w, mqCh, udpCount, decCount, stop, closed, sd, published, panicked, quit, mirCh, mirrored>>
 
 NoBuf == "nobuf"
 NoD == <<"none", 0>>
@@ -47,113 +54,136 @@ Init ==
   /\ published = [d \in Dgrams |-> <<>>]
   /\ panicked = FALSE
   /\ quit = {}
+  /\ mirCh = <<>> /\ mirrored = [d \in Dgrams |-> <<>>]
 
 \* ---------------- receive loop
 RecvCheck == /\ recv.pc = "check"
              /\ recv' = [recv EXCEPT !.pc = IF stop THEN "exit" ELSE "get"]
-             /\ UNCHANGED <<pool, content, arriving, udpCh, w, mqCh, udpCount, decCount, stop, closed, sd, published, panicked, quit>>
+             /\ UNCHANGED <<pool, content, arriving, udpCh, w, mqCh, udpCount, decCount, stop, closed, sd, published, panicked, quit>> /\ UNCHANGED mvars
 RecvGet == /\ recv.pc = "get" /\ pool # {}
            /\ \E b \in pool : /\ pool' = pool \ {b}
                               /\ recv' = [recv EXCEPT !.pc = "read", !.buf = b]
-           /\ UNCHANGED <<content, arriving, udpCh, w, mqCh, udpCount, decCount, stop, closed, sd, published, panicked, quit>>
+           /\ UNCHANGED <<content, arriving, udpCh, w, mqCh, udpCount, decCount, stop, closed, sd, published, panicked, quit>> /\ UNCHANGED mvars
 RecvRead == /\ recv.pc = "read"
             /\ \E d \in arriving :
                  /\ arriving' = arriving \ {d}
                  /\ content' = [content EXCEPT ![recv.buf] = d]
                  /\ recv' = [recv EXCEPT !.pc = "count", !.d = d]
-            /\ UNCHANGED <<pool, udpCh, w, mqCh, udpCount, decCount, stop, closed, sd, published, panicked, quit>>
+            /\ UNCHANGED <<pool, udpCh, w, mqCh, udpCount, decCount, stop, closed, sd, published, panicked, quit>> /\ UNCHANGED mvars
 RecvTimeout == /\ recv.pc = "read"
                /\ recv' = [recv EXCEPT !.pc = "check", !.buf = NoBuf]   \* buffer is simply dropped (GC)
-               /\ UNCHANGED <<pool, content, arriving, udpCh, w, mqCh, udpCount, decCount, stop, closed, sd, published, panicked, quit>>
+               /\ UNCHANGED <<pool, content, arriving, udpCh, w, mqCh, udpCount, decCount, stop, closed, sd, published, panicked, quit>> /\ UNCHANGED mvars
 RecvCount == /\ recv.pc = "count"
              /\ udpCount' = udpCount + 1
              /\ recv' = [recv EXCEPT !.pc = "send"]
-             /\ UNCHANGED <<pool, content, arriving, udpCh, w, mqCh, decCount, stop, closed, sd, published, panicked, quit>>
+             /\ UNCHANGED <<pool, content, arriving, udpCh, w, mqCh, decCount, stop, closed, sd, published, panicked, quit>> /\ UNCHANGED mvars
 RecvSend == /\ recv.pc = "send"
             /\ IF closed THEN /\ panicked' = TRUE /\ UNCHANGED <<udpCh, recv>>
                ELSE /\ Len(udpCh) < UdpCap
                     /\ udpCh' = Append(udpCh, [d |-> recv.d, buf |-> recv.buf])
                     /\ recv' = [pc |-> "check", buf |-> NoBuf, d |-> NoD]
                     /\ UNCHANGED panicked
-            /\ UNCHANGED <<pool, content, arriving, w, mqCh, udpCount, decCount, stop, closed, sd, published, quit>>
+            /\ UNCHANGED <<pool, content, arriving, w, mqCh, udpCount, decCount, stop, closed, sd, published, quit>> /\ UNCHANGED mvars
 
 \* ---------------- workers
 WTop(x) == /\ w[x].pc = "top"
            /\ pool' = IF w[x].buf = NoBuf THEN pool ELSE pool \cup {w[x].buf}
            /\ w' = [w EXCEPT ![x].pc = "wait"]
-           /\ UNCHANGED <<content, arriving, recv, udpCh, mqCh, udpCount, decCount, stop, closed, sd, published, panicked, quit>>
+           /\ UNCHANGED <<content, arriving, recv, udpCh, mqCh, udpCount, decCount, stop, closed, sd, published, panicked, quit>> /\ UNCHANGED mvars
 WDequeue(x) == /\ w[x].pc = "wait" /\ udpCh # <<>>
                /\ LET m == Head(udpCh) IN
                     /\ udpCh' = Tail(udpCh)
                     /\ w' = [w EXCEPT ![x] = [pc |-> "got", d |-> m.d, buf |-> m.buf, dec |-> NoD, enc |-> w[x].enc]]
                     /\ pool' = IF EarlyPut THEN pool \cup {m.buf} ELSE pool
-               /\ UNCHANGED <<content, arriving, recv, mqCh, udpCount, decCount, stop, closed, sd, published, panicked, quit>>
+               /\ UNCHANGED <<content, arriving, recv, mqCh, udpCount, decCount, stop, closed, sd, published, panicked, quit>> /\ UNCHANGED mvars
 (* dynamic workers (dynWorkers): a worker is told to quit; it leaves at its select - never with a datagram in hand *)
 Retire(x) == /\ x \notin quit /\ Cardinality(quit) < MaxRetire /\ Cardinality(Workers \ quit) > 1
              /\ quit' = quit \cup {x}
-             /\ UNCHANGED <<pool, content, arriving, recv, udpCh, w, mqCh, udpCount, decCount, stop, closed, sd, published, panicked>>
+             /\ UNCHANGED <<pool, content, arriving, recv, udpCh, w, mqCh, udpCount, decCount, stop, closed, sd, published, panicked>> /\ UNCHANGED mvars
 WQuit(x) == /\ w[x].pc = "wait" /\ x \in quit
             /\ w' = [w EXCEPT ![x].pc = "exit"]
-            /\ UNCHANGED <<pool, content, arriving, recv, udpCh, mqCh, udpCount, decCount, stop, closed, sd, published, panicked, quit>>
+            /\ UNCHANGED <<pool, content, arriving, recv, udpCh, mqCh, udpCount, decCount, stop, closed, sd, published, panicked, quit>> /\ UNCHANGED mvars
 (* the deviation: the datagram is taken from the queue and the worker leaves *)
 WQuitDrop(x) == /\ RetireDrops /\ w[x].pc = "wait" /\ x \in quit /\ udpCh # <<>>
                 /\ udpCh' = Tail(udpCh) /\ w' = [w EXCEPT ![x].pc = "exit"]
-                /\ UNCHANGED <<pool, content, arriving, recv, mqCh, udpCount, decCount, stop, closed, sd, published, panicked, quit>>
+                /\ UNCHANGED <<pool, content, arriving, recv, mqCh, udpCount, decCount, stop, closed, sd, published, panicked, quit>> /\ UNCHANGED mvars
 WExit(x) == /\ w[x].pc = "wait" /\ udpCh = <<>> /\ closed
             /\ w' = [w EXCEPT ![x].pc = "exit"]
-            /\ UNCHANGED <<pool, content, arriving, recv, udpCh, mqCh, udpCount, decCount, stop, closed, sd, published, panicked, quit>>
-WDecode(x) == /\ w[x].pc = "got"
+            /\ UNCHANGED <<pool, content, arriving, recv, udpCh, mqCh, udpCount, decCount, stop, closed, sd, published, panicked, quit>> /\ UNCHANGED mvars
+(* the mirror branch (ipfix.go:230, sflow.go:209): a pool buffer (or a fresh one - modelled by the finite pool) gets a *)
+(* copy of the datagram as it is NOW in the receive buffer and is queued for the mirror workers, or dropped when the   *)
+(* mirror queue is full (the buffer is then garbage).  The mirror worker sends what the buffer holds NOW and returns it *)
+WMirror(x) == /\ MirrorOn /\ w[x].pc = "got" /\ pool # {}
+              /\ \E b \in pool :
+                   /\ content' = [content EXCEPT ![b] = content[w[x].buf]]
+                   /\ IF Len(mirCh) < MirCap
+                      THEN /\ mirCh' = Append(mirCh, [d |-> w[x].d, buf |-> b]) /\ pool' = pool \ {b}
+                      ELSE /\ UNCHANGED mirCh
+                           /\ pool' = IF MirrorPutsOwn THEN (pool \ {b}) \cup {w[x].buf} ELSE pool \ {b}
+              /\ w' = [w EXCEPT ![x].pc = "mirrored"]
+              /\ UNCHANGED <<arriving, recv, udpCh, mqCh, udpCount, decCount, stop, closed, sd, published, panicked, quit, mirrored>>
+MirrorSend == /\ mirCh # <<>>
+              /\ LET m == Head(mirCh) IN
+                   /\ mirrored' = [mirrored EXCEPT ![m.d] = Append(@, content[m.buf])]
+                   /\ pool' = pool \cup {m.buf}
+              /\ mirCh' = Tail(mirCh)
+              /\ UNCHANGED <<content, arriving, recv, udpCh, w, mqCh, udpCount, decCount, stop, closed, sd, published, panicked, quit>>
+DecPc == IF MirrorOn THEN "mirrored" ELSE "got"
+WDecode(x) == /\ w[x].pc = DecPc
               /\ LET seen == content[w[x].buf] IN
                    IF Kind(seen) = "bad"
                    THEN /\ w' = [w EXCEPT ![x].pc = "top"] /\ UNCHANGED decCount
                    ELSE /\ w' = [w EXCEPT ![x].pc = "decoded", ![x].dec = seen]
                         /\ decCount' = decCount + 1
-              /\ UNCHANGED <<pool, content, arriving, recv, udpCh, mqCh, udpCount, stop, closed, sd, published, panicked, quit>>
+              /\ UNCHANGED <<pool, content, arriving, recv, udpCh, mqCh, udpCount, stop, closed, sd, published, panicked, quit>> /\ UNCHANGED mvars
 (* JSONMarshal into the worker's own, reused encode buffer *)
 WMarshal(x) == /\ w[x].pc = "decoded"
                /\ IF Kind(w[x].dec) = "data"
                   THEN w' = [w EXCEPT ![x].pc = "marshalled", ![x].enc = w[x].dec]
                   ELSE w' = [w EXCEPT ![x].pc = "top"]                 \* nothing to publish (template only)
-               /\ UNCHANGED <<pool, content, arriving, recv, udpCh, mqCh, udpCount, decCount, stop, closed, sd, published, panicked, quit>>
+               /\ UNCHANGED <<pool, content, arriving, recv, udpCh, mqCh, udpCount, decCount, stop, closed, sd, published, panicked, quit>> /\ UNCHANGED mvars
 (* non-blocking send: a copy of the encoded message, or (Alias) the encode buffer itself *)
 WPublish(x) == /\ w[x].pc = "marshalled"
                /\ IF Len(mqCh) < MqCap
                   THEN mqCh' = Append(mqCh, [d |-> w[x].d, ref |-> IF Alias THEN x ELSE NoRef, val |-> w[x].enc])
                   ELSE UNCHANGED mqCh                                   \* queue full: dropped
                /\ w' = [w EXCEPT ![x].pc = "top"]
-               /\ UNCHANGED <<pool, content, arriving, recv, udpCh, udpCount, decCount, stop, closed, sd, published, panicked, quit>>
+               /\ UNCHANGED <<pool, content, arriving, recv, udpCh, udpCount, decCount, stop, closed, sd, published, panicked, quit>> /\ UNCHANGED mvars
 (* the producer goroutine takes a message: what it reads is what the slice holds NOW *)
 Consume == /\ mqCh # <<>>
            /\ LET m == Head(mqCh)
                   v == IF m.ref = NoRef THEN m.val ELSE w[m.ref].enc IN
               published' = [published EXCEPT ![m.d] = Append(@, v)]
            /\ mqCh' = Tail(mqCh)
-           /\ UNCHANGED <<pool, content, arriving, recv, udpCh, w, udpCount, decCount, stop, closed, sd, panicked, quit>>
+           /\ UNCHANGED <<pool, content, arriving, recv, udpCh, w, udpCount, decCount, stop, closed, sd, panicked, quit>> /\ UNCHANGED mvars
 
 \* ---------------- shutdown
 Signal == /\ sd = "idle" /\ sd' = "setstop"
-          /\ UNCHANGED <<pool, content, arriving, recv, udpCh, w, mqCh, udpCount, decCount, stop, closed, published, panicked, quit>>
+          /\ UNCHANGED <<pool, content, arriving, recv, udpCh, w, mqCh, udpCount, decCount, stop, closed, published, panicked, quit>> /\ UNCHANGED mvars
 SdStop == /\ sd = "setstop" /\ stop' = TRUE /\ sd' = "sleep"
-          /\ UNCHANGED <<pool, content, arriving, recv, udpCh, w, mqCh, udpCount, decCount, closed, published, panicked, quit>>
+          /\ UNCHANGED <<pool, content, arriving, recv, udpCh, w, mqCh, udpCount, decCount, closed, published, panicked, quit>> /\ UNCHANGED mvars
 \* timing assumption: one second is enough for the loop to leave anything but a blocked send
 SdSleepDone == /\ sd = "sleep" /\ recv.pc \in {"exit", "send"} /\ sd' = "close"
-               /\ UNCHANGED <<pool, content, arriving, recv, udpCh, w, mqCh, udpCount, decCount, stop, closed, published, panicked, quit>>
+               /\ UNCHANGED <<pool, content, arriving, recv, udpCh, w, mqCh, udpCount, decCount, stop, closed, published, panicked, quit>> /\ UNCHANGED mvars
 SdClose == /\ sd = "close" /\ (CloseWaits => recv.pc = "exit")
            /\ closed' = TRUE /\ sd' = "done"
-           /\ UNCHANGED <<pool, content, arriving, recv, udpCh, w, mqCh, udpCount, decCount, stop, published, panicked, quit>>
+           /\ UNCHANGED <<pool, content, arriving, recv, udpCh, w, mqCh, udpCount, decCount, stop, published, panicked, quit>> /\ UNCHANGED mvars
 
 Next == \/ RecvCheck \/ RecvGet \/ RecvRead \/ RecvTimeout \/ RecvCount \/ RecvSend
-        \/ \E x \in Workers : WTop(x) \/ WDequeue(x) \/ WExit(x) \/ WDecode(x) \/ WMarshal(x) \/ WPublish(x) \/ Retire(x) \/ WQuit(x) \/ WQuitDrop(x)
-        \/ Consume \/ Signal \/ SdStop \/ SdSleepDone \/ SdClose
+        \/ \E x \in Workers : WTop(x) \/ WDequeue(x) \/ WExit(x) \/ WDecode(x) \/ WMarshal(x) \/ WPublish(x) \/ WMirror(x) \/ Retire(x) \/ WQuit(x) \/ WQuitDrop(x)
+        \/ Consume \/ MirrorSend \/ Signal \/ SdStop \/ SdSleepDone \/ SdClose
 Spec == Init /\ [][Next]_vars
 
 \* ---------------- properties
 NoPanic == ~panicked
 PublishedIsOwn == \A d \in Dgrams : \A i \in 1..Len(published[d]) : published[d][i] = d
 AtMostOnce == \A d \in Dgrams : Len(published[d]) <= 1
-NoUseAfterPut == \A x \in Workers : w[x].pc = "got" => w[x].buf \notin pool
+NoUseAfterPut == \A x \in Workers : w[x].pc \in {"got", "mirrored"} => w[x].buf \notin pool
+(* what the mirror sends for a datagram is that datagram, at most once; a queued copy is not in the pool *)
+MirrorIsCopy == \A d \in Dgrams : Len(mirrored[d]) <= 1 /\ \A i \in 1..Len(mirrored[d]) : mirrored[d][i] = d
+MirrorBufHeld == \A i \in 1..Len(mirCh) : mirCh[i].buf \notin pool
 CountsSane == decCount <= udpCount /\ udpCount <= Cardinality(Dgrams)
-Quiescent == /\ udpCh = <<>> /\ mqCh = <<>> /\ recv.pc \in {"check","get","read","exit"} /\ \A x \in Workers : w[x].pc \in {"top","wait","exit"}
+Quiescent == /\ udpCh = <<>> /\ mqCh = <<>> /\ mirCh = <<>> /\ recv.pc \in {"check","get","read","exit"} /\ \A x \in Workers : w[x].pc \in {"top","wait","exit"}
 (* exactly one message for a datagram that yields data, when the outgoing queue never filled (MqCap large enough) *)
 ExactlyOnceIfData == Quiescent => \A d \in Dgrams \ arriving : Kind(d) = "data" => Len(published[d]) = 1
 NoPhantom == \A d \in Dgrams : published[d] # <<>> => d \notin arriving /\ Kind(d) = "data"
